@@ -5,8 +5,9 @@
 # usage: selftest/seeded.sh [--thorough] [--all-checks] [name ...]
 set -u
 cd "$(dirname "$0")/.."
-# under `vp run --with-repo` the job works on its private copy of the repository (VP_RUN_REPO), never on the live /repo
-REPO="${VP_RUN_REPO:-/repo}"
+# never on the live /repo: the job's private snapshot under `vp run --with-repo`, a private clone otherwise
+. selftest/_private_repo.sh
+REPO="$VP_RUN_REPO"
 if [ -n "${VP_RUN_REPO:-}" ]; then sed -i "s#path = \"/repo\"#path = \"$VP_RUN_REPO\"#" sim/Cargo.toml; fi
 THOR=0; ALLC=0
 while [ "${1:-}" = "--thorough" ] || [ "${1:-}" = "--all-checks" ]; do
